@@ -159,6 +159,7 @@ PLANS = {
         "rule": NT_RULE + "; C09: at least one message reached a connected peer and was checked against the model",
         "budget_s": {"quick": 50, "thorough": 900},
         "scenarios": [
+            S("c18_fifo_conc", 500, 15000, label="resize", path=5),  # BUS: per-peer order while the buffers behind the connection are resized under traffic (round-4 seeded C09_8, which C18 caught)
             S("c09_mesh", 800, 24000),
             S("c09_raw", 600, 18000),
             S("c09_device", 500, 15000),
